@@ -54,3 +54,14 @@ Theorem C15_smooth_vfunc_stays_in_range : forall va adj n k f lo hi, smooth_good
   forall i, (i < n)%nat -> lo <= nth i (smooth_col Rops va adj n k f) 0 <= hi.
 Proof. exact smooth_col_range. Qed.
 Print Assumptions C15_smooth_vfunc_stays_in_range.
+
+(* known finding F13, as a theorem about the faithful model: the clause "constants map to constants" is REFUTED on the 3-fan
+   (valences 3,1,2,2,1): the constant 1 is mapped to (1, 1/3, 2/3, 2/3, 1/3), whatever the vertex coordinates *)
+Theorem C15_constants_to_constants_refuted : forall v,
+  map_tfunc_to_vfunc Rops 5 v [(0, 1, 2); (0, 2, 3); (0, 3, 4)]%nat false [[1; 1; 1]] = Ok [[1; 1 / 3; 2 / 3; 2 / 3; 1 / 3]].
+Proof.
+  intros v. unfold map_tfunc_to_vfunc. cbn [existsb length Nat.eqb negb orb map].
+  unfold tfunc_to_vfunc_col. cbn [combine map app iota iota_from fold_left Nat.eqb add div zero ofZ Rops].
+  do 2 f_equal. repeat (apply f_equal2; [field|]). reflexivity.
+Qed.
+Print Assumptions C15_constants_to_constants_refuted.
